@@ -313,3 +313,33 @@ pub fn conditional_families() -> Vec<(Expr, String)> {
     }
     out
 }
+
+/// A capture group under `{0}` followed by other groups: the parser must keep the group
+/// (its number is part of the pattern's meaning even though it can never participate).
+pub fn zero_repeat_families() -> Vec<(Expr, String)> {
+    let st = Style::default();
+    let g = |s: &str| Expr::Group(Box::new(lit(s)));
+    let zero = |e: Expr| Expr::Repeat { child: Box::new(e), lo: 0, hi: 0, greedy: true };
+    let la = |s: &str| Expr::LookAround(Box::new(lit(s)), LookAround::LookAhead);
+    let mut trees: Vec<Expr> = Vec::new();
+    trees.push(Expr::Concat(vec![zero(g("a")), g("b")]));
+    trees.push(Expr::Concat(vec![zero(g("a")), g("b"), la("c")]));
+    trees.push(Expr::Concat(vec![g("a"), zero(g("x")), g("b"), la("c")]));
+    trees.push(Expr::Concat(vec![
+        Expr::Repeat {
+            child: Box::new(Expr::Alt(vec![Expr::Concat(vec![zero(g("x")), g("a")]), g("b")])),
+            lo: 1,
+            hi: usize::MAX,
+            greedy: true,
+        },
+        Expr::LookAround(Box::new(lit("a")), LookAround::LookAheadNeg),
+    ]));
+    trees.push(Expr::Concat(vec![zero(Expr::Group(Box::new(Expr::Concat(vec![g("a"), lit("b")])))), g("c"), Expr::Backref(3)]));
+    let mut out = Vec::new();
+    for e in trees {
+        if let Some(s) = unparse::unparse(&e, &st) {
+            out.push((e, s));
+        }
+    }
+    out
+}
